@@ -2502,6 +2502,12 @@ func ruleWIN3(c *Ctx) []Ob {
 							}
 							continue
 						}
+						// the counter shortcut may keep the numbers of its computation in a value of its own
+						if named != nil && readsSize {
+							if rf := rootFunc(fn); rf.Signature.Results().Len() > 0 && isIntType(rf.Signature.Results().At(0).Type()) {
+								continue
+							}
+						}
 						what := "a store"
 						if named != nil {
 							what = "field of " + named.Obj().Name()
